@@ -4,6 +4,7 @@ use std::collections::HashMap;
 use std::fs;
 
 #[derive(Archive, Deserialize, Serialize, Debug, Clone)]
+#[archive(check_bytes)]
 pub struct BlockPos {
     pub cur_block_idx: u64,
     pub cur_block_offset: u64,
@@ -31,9 +32,12 @@ impl WalIndex {
                 if bytes.is_empty() {
                     return None;
                 }
-                // SAFETY: `bytes` comes from our persisted index file which we control;
-                // we only proceed when the file is non-empty and rkyv can interpret it.
-                let archived = unsafe { rkyv::archived_root::<HashMap<String, BlockPos>>(&bytes) };
+                // The file may be damaged: validate before decoding (a damaged index is treated
+                // like a missing one). Validation needs an aligned buffer.
+                let mut aligned = rkyv::AlignedVec::with_capacity(bytes.len());
+                aligned.extend_from_slice(&bytes);
+                let archived =
+                    rkyv::check_archived_root::<HashMap<String, BlockPos>>(&aligned[..]).ok()?;
                 archived.deserialize(&mut rkyv::Infallible).ok()
             })
             .unwrap_or_default();
